@@ -6,6 +6,7 @@
   `numerator = a` and `error = e` (no division by zero met).  `K` is any field.
 -/
 import ALV.Lemmas.C10Min
+import ALV.Lemmas.C10Cov2
 import ALV.Common.Audit
 
 namespace ALV.Props.C10
@@ -52,9 +53,6 @@ end tables
 
 variable {K : Type} [Field K] [DecidableEq K]
 
-/-- the order `levinson_durbin` works with: `order`, or `len(r) − 1` for `None` -/
-def orderOf (r : List K) (order : Option Nat) : Nat := order.getD (r.length - 1)
-
 /-- **C10.1a** (normal equations).  Whenever `levinson_durbin(r, order)` returns — i.e. on every
 lag vector on which the recursion meets no zero divisor — for every order (also `order ≥ len(r)`,
 zero extension) the returned filter is monic, has at most `order+1` coefficients and satisfies
@@ -90,9 +88,6 @@ example : levinson [(1 : Rat), 1, 1] (some 2) = .error "ParCorError" := by decid
 example : levinson [(2 : Rat), 1] (some 3) = .ok ([1, -3/4, 1/2, -1/4], 5/4) := by decide +kernel
 
 /-! ### lpc.kautocor -/
-
-/-- the order `lpc.kautocor` / `lpc.kcovar` work with: `order`, or `len(blk) − 1` for `None` -/
-def blkOrder (blk : List K) (order : Option Nat) : Nat := order.getD (blk.length - 1)
 
 /-- **C10.3a** `lpc.kautocor(blk, order)`, when it returns, solves the Yule–Walker equations of
 the block's autocorrelation `acorr(blk, order)`. -/
@@ -130,6 +125,55 @@ theorem kautocor_minimises [LinearOrder K] [IsStrictOrderedRing K]
 example : kautocor [(1 : Rat), 2, 3, 4, 3, 2] (some 2) = .ok ([1, -38/27, 16/27], 55/9) := by decide +kernel
 example : energy [(1 : Rat), -38/27, 16/27] [1, 2, 3, 4, 3, 2] 2 = 55/9 := by decide +kernel
 example : energy [(1 : Rat), -1, 1/2] [1, 2, 3, 4, 3, 2] 2 = 43/4 ∧ (55/9 : Rat) ≤ 43/4 := by decide +kernel
+
+/-! ### lpc.kcovar -/
+
+/-- **C10.4a** `lpc.kcovar(blk, order)`, when it returns (no zero `beta`, no `|k| ≥ 1` exit —
+whatever the exit test is), gives a monic filter of order ≤ p that satisfies the covariance
+normal equations `Σ_j a_j · φ(i,j) = 0` (i = 1..p), `φ(i,j) = Σ_{n=p}^{N−1} x[n−i]·x[n−j]`. -/
+theorem kcovar_normal_eqs (unstable : K → Bool) (blk : List K) (order : Option Nat) (a : List K)
+    (e : K) (h : kcovarWith unstable blk order = .ok (a, e)) :
+    IsCovarSol blk a (blkOrder blk order) := by
+  obtain ⟨_, h1⟩ := kcovarWith_ok h
+  obtain ⟨_, ha0, halen, horth, _⟩ := kcovarOn_ok (phiOf_lagTable_symm blk _) h1
+  rw [lagTable_length] at halen horth
+  refine ⟨ha0, halen, fun i hi1 hi2 => ?_⟩
+  rw [← bil_lagTable_unit blk a _ i hi2]
+  exact horth i hi1 (by omega)
+
+/-- **C10.4b** and its `error` attribute equals the residual energy over n ≥ p,
+`Σ_{n=p}^{N−1} (Σ_j a_j x[n−j])²`, which is also `Σ_j a_j · φ(0,j)`. -/
+theorem kcovar_error (unstable : K → Bool) (blk : List K) (order : Option Nat) (a : List K)
+    (e : K) (h : kcovarWith unstable blk order = .ok (a, e)) :
+    e = covEnergy a blk (blkOrder blk order) ∧ e = covResidual blk a (blkOrder blk order) 0 := by
+  obtain ⟨_, h1⟩ := kcovarWith_ok h
+  obtain ⟨_, ha0, halen, horth, he⟩ := kcovarOn_ok (phiOf_lagTable_symm blk _) h1
+  rw [lagTable_length] at halen horth
+  refine ⟨by rw [he]; exact innerM_lagTable_self blk a _ halen, ?_⟩
+  rw [he, innerM_eq_bil _ a a _ halen halen,
+    bil_self_of_orth _ _ (by omega) _ ha0 horth, bil_lagTable_unit blk a _ 0 (by omega)]
+
+/-- the same two clauses for `lpc.kcovar` itself (exit test `k >= 1 or k <= -1`) over an ordered
+field -/
+theorem kcovar_returns_solution [LinearOrder K] [IsStrictOrderedRing K]
+    (blk : List K) (order : Option Nat) (a : List K) (e : K)
+    (h : kcovar blk order = .ok (a, e)) :
+    IsCovarSol blk a (blkOrder blk order) ∧ e = covEnergy a blk (blkOrder blk order) :=
+  ⟨kcovar_normal_eqs _ blk order a e h, (kcovar_error _ blk order a e h).1⟩
+
+/-- `lpc.kcovar` raises (ValueError from `lag_matrix`) when `order ≥ len(blk)` -/
+theorem kcovar_order_too_large (unstable : K → Bool) (blk : List K) (L : Nat)
+    (h : blk.length ≤ L) : kcovarWith unstable blk (some L) = .error "ValueError" := by
+  simp [kcovarWith, lagMatrix, h, bind, Except.bind]
+
+/-- non-vacuity: `lpc.kcovar([1,2,3,4,3,2,5,1], 2)` returns, with the values of the real code;
+    the unstable exit and the zero division are reachable -/
+example : kcovar [(1 : Rat), 2, 3, 4, 3, 2, 5, 1] (some 2) =
+    .ok ([1, -33/577, -567/577], 9730/577) := by decide +kernel
+example : covEnergy [(1 : Rat), -33/577, -567/577] [1, 2, 3, 4, 3, 2, 5, 1] 2 = 9730/577 := by
+  decide +kernel
+example : kcovar [(1 : Rat), 2, 4, 8] (some 1) = .error "ValueError" := by decide +kernel
+example : kcovar [(0 : Rat), 0, 0, 0] (some 1) = .error "ZeroDivisionError" := by decide +kernel
 
 end ALV.Props.C10
 
